@@ -166,4 +166,314 @@ theorem walkName_spec : ∀ (fuel : Nat) (l : Bytes) (ls : List Bytes) (r : Byte
                   omega
                 · exact hlabs lab hl
 
+
+/-! ### options -/
+
+/-- what one accepted option does to the facts -/
+structure ArmRel (code : Nat) (data : Bytes) (f f' : OptFacts) : Prop where
+  udp : f'.udpSize = f.udpSize
+  ver : f'.version = f.version
+  dok : f'.dnssecOK = f.dnssecOK
+  ecs : f'.hasECS = (f.hasECS || code == 8)
+  nsid : f'.hasNSID = (f.hasNSID || code == 3)
+  ka : f'.hasKeepalive = (f.hasKeepalive || code == 11)
+  ck10 : code = 10 → f.cookie = [] ∧ f'.cookie = data ∧ data ≠ []
+  ckn : code ≠ 10 → f'.cookie = f.cookie
+
+theorem optionArm_spec (code n : Nat) (data : Bytes) (f f' : OptFacts)
+    (h : optionArm code n data f = some f') (hlen : data.length = n) :
+    SOption.ok ⟨code, data⟩ ∧ ArmRel code data f f' := by
+  unfold optionArm at h
+  by_cases h10 : code = 10
+  · subst h10
+    simp only [if_true] at h
+    by_cases hbad : n < 8 ∨ n > 40 ∨ f.cookie ≠ []
+    · simp [hbad] at h
+    · simp only [hbad, if_false, Option.some.injEq] at h
+      subst h
+      have hck : f.cookie = [] := by
+        by_cases hc : f.cookie = []
+        · exact hc
+        · exact absurd (Or.inr (Or.inr hc)) hbad
+      have hne : data ≠ [] := by
+        intro he; rw [he] at hlen; simp at hlen; omega
+      refine ⟨Or.inl ⟨rfl, by simp only; omega, by simp only; omega⟩, ?_⟩
+      constructor <;> simp [hck, hne]
+  · simp only [h10, if_false] at h
+    by_cases h3 : code = 3
+    · subst h3
+      simp only [if_true, Option.some.injEq] at h
+      subst h
+      refine ⟨Or.inr (Or.inl rfl), ?_⟩
+      constructor <;> simp
+    · simp only [h3, if_false] at h
+      by_cases h8 : code = 8
+      · subst h8
+        simp only [if_true] at h
+        by_cases hl4 : n < 4
+        · simp [hl4] at h
+        · simp only [hl4, if_false] at h
+          have okECS : ∀ (hok : (u16 (data.getD 0 0) (data.getD 1 0) = 0 ∧ data.getD 2 0 = 0) ∨
+              (u16 (data.getD 0 0) (data.getD 1 0) = 1 ∧ data.getD 2 0 ≤ 32 ∧ data.getD 3 0 ≤ 32) ∨
+              (u16 (data.getD 0 0) (data.getD 1 0) = 2 ∧ data.getD 2 0 ≤ 128 ∧ data.getD 3 0 ≤ 128))
+              (hf : f' = { f with hasECS := true }), SOption.ok ⟨8, data⟩ ∧ ArmRel 8 data f f' := by
+            intro hok hf
+            subst hf
+            refine ⟨Or.inr (Or.inr (Or.inr (Or.inr ⟨rfl, by simp only; omega, hok⟩))), ?_⟩
+            constructor <;> simp
+          by_cases hf0 : u16 (data.getD 0 0) (data.getD 1 0) = 0
+          · simp only [hf0, if_true] at h
+            by_cases hm : data.getD 2 0 ≠ 0
+            · rw [if_pos hm] at h; cases h
+            · simp only [hm, if_false, Option.some.injEq] at h
+              exact okECS (Or.inl ⟨hf0, by simpa using hm⟩) h.symm
+          · simp only [hf0, if_false] at h
+            by_cases hf1 : u16 (data.getD 0 0) (data.getD 1 0) = 1
+            · simp only [hf1, if_true] at h
+              by_cases hm : data.getD 2 0 > 32 ∨ data.getD 3 0 > 32
+              · rw [if_pos hm] at h; cases h
+              · simp only [hm, if_false, Option.some.injEq] at h
+                exact okECS (Or.inr (Or.inl ⟨hf1, by omega, by omega⟩)) h.symm
+            · simp only [hf1, if_false] at h
+              by_cases hf2 : u16 (data.getD 0 0) (data.getD 1 0) = 2
+              · simp only [hf2, if_true] at h
+                by_cases hm : data.getD 2 0 > 128 ∨ data.getD 3 0 > 128
+                · rw [if_pos hm] at h; cases h
+                · simp only [hm, if_false, Option.some.injEq] at h
+                  exact okECS (Or.inr (Or.inr ⟨hf2, by omega, by omega⟩)) h.symm
+              · rw [if_neg hf2] at h; cases h
+      · simp only [h8, if_false] at h
+        by_cases h12 : code = 12
+        · subst h12
+          simp only [if_true, Option.some.injEq] at h
+          subst h
+          refine ⟨Or.inr (Or.inr (Or.inl rfl)), ?_⟩
+          constructor <;> simp
+        · simp only [h12, if_false] at h
+          by_cases h11 : code = 11
+          · subst h11
+            simp only [if_true] at h
+            by_cases hbad : n ≠ 0 ∧ n ≠ 2
+            · simp [hbad] at h
+            · simp only [hbad, if_false, Option.some.injEq] at h
+              subst h
+              refine ⟨Or.inr (Or.inr (Or.inr (Or.inl ⟨rfl, by simp only; omega⟩))), ?_⟩
+              constructor <;> simp
+          · simp [h11] at h
+
+/-- What the option loop accepted is the encoding of a list of acceptable
+options, and the facts it reports are the specification's reading of that
+list (`f0` = facts before the loop). -/
+theorem walkOpts_spec : ∀ (fuel : Nat) (l : Bytes) (f0 f : OptFacts),
+    walkOpts fuel l f0 = some f → (∀ x ∈ l, x < 256) →
+    ∃ os : List SOption, encOptions os = l ∧ (∀ o ∈ os, o.ok) ∧
+      f.udpSize = f0.udpSize ∧ f.version = f0.version ∧ f.dnssecOK = f0.dnssecOK ∧
+      f.hasECS = (f0.hasECS || os.any (fun x => x.code == 8)) ∧
+      f.hasNSID = (f0.hasNSID || os.any (fun x => x.code == 3)) ∧
+      f.hasKeepalive = (f0.hasKeepalive || os.any (fun x => x.code == 11)) ∧
+      (f0.cookie = [] → f.cookie = cookieOf os ∧ countCookies os ≤ 1) ∧
+      (f0.cookie ≠ [] → f.cookie = f0.cookie ∧ countCookies os = 0) := by
+  intro fuel
+  induction fuel with
+  | zero => intro l f0 f h; simp [walkOpts] at h
+  | succ n ih =>
+    intro l f0 f h hb
+    match l, h, hb with
+    | [], h, _ =>
+      simp only [walkOpts, Option.some.injEq] at h
+      subst h
+      exact ⟨[], rfl, by simp, rfl, rfl, rfl, by simp, by simp, by simp,
+        fun hc => ⟨by simp [cookieOf, hc], by simp [countCookies]⟩, fun _ => ⟨rfl, by simp [countCookies]⟩⟩
+    | [_], h, _ => simp [walkOpts] at h
+    | [_, _], h, _ => simp [walkOpts] at h
+    | [_, _, _], h, _ => simp [walkOpts] at h
+    | c1 :: c0 :: l1 :: l0 :: t, h, hb =>
+      simp only [walkOpts] at h
+      by_cases hlen : t.length < u16 l1 l0
+      · simp [hlen] at h
+      · simp only [hlen, if_false] at h
+        cases harm : optionArm (u16 c1 c0) (u16 l1 l0) (t.take (u16 l1 l0)) f0 with
+        | none => simp [harm] at h
+        | some f1 =>
+          simp only [harm] at h
+          obtain ⟨htl, hsplit⟩ := take_drop_len t (u16 l1 l0) hlen
+          obtain ⟨hok, rel⟩ := optionArm_spec _ _ _ _ _ harm htl
+          have hbt : ∀ x ∈ t.drop (u16 l1 l0), x < 256 := fun x hx =>
+            hb x (by simp only [List.mem_cons]; right; right; right; right; exact List.mem_of_mem_drop hx)
+          obtain ⟨os, henc, hall, hu, hv, hd, he, hn, hk, hc0, hc1⟩ := ih _ _ _ h hbt
+          have b1 : c1 < 256 := hb c1 (by simp)
+          have b0 : c0 < 256 := hb c0 (by simp)
+          have bl1 : l1 < 256 := hb l1 (by simp)
+          have bl0 : l0 < 256 := hb l0 (by simp)
+          refine ⟨⟨u16 c1 c0, t.take (u16 l1 l0)⟩ :: os, ?_, ?_, ?_, ?_, ?_, ?_, ?_, ?_, ?_, ?_⟩
+          · simp only [encOptions, htl, be16_u16 c1 c0 b1 b0, be16_u16 l1 l0 bl1 bl0, henc, List.cons_append,
+              List.nil_append]
+            rw [← hsplit]
+          · intro o ho
+            rcases List.mem_cons.mp ho with rfl | ho'
+            · exact hok
+            · exact hall o ho'
+          · rw [hu, rel.udp]
+          · rw [hv, rel.ver]
+          · rw [hd, rel.dok]
+          · rw [he, rel.ecs]; simp [Bool.or_assoc]
+          · rw [hn, rel.nsid]; simp [Bool.or_assoc]
+          · rw [hk, rel.ka]; simp [Bool.or_assoc]
+          · intro hf0
+            by_cases h10 : u16 c1 c0 = 10
+            · obtain ⟨_, hck, hne⟩ := rel.ck10 h10
+              have hne1 : f1.cookie ≠ [] := by rw [hck]; exact hne
+              obtain ⟨hfc, hcnt⟩ := hc1 hne1
+              refine ⟨?_, ?_⟩
+              · simp [cookieOf, h10, hfc, hck]
+              · simp [countCookies, h10, hcnt]
+            · have := rel.ckn h10
+              obtain ⟨hfc, hcnt⟩ := hc0 (by rw [this]; exact hf0)
+              refine ⟨?_, ?_⟩
+              · simp [cookieOf, h10, hfc]
+              · simp [countCookies, h10]; exact hcnt
+          · intro hf0
+            by_cases h10 : u16 c1 c0 = 10
+            · exact absurd (rel.ck10 h10).1 hf0
+            · have := rel.ckn h10
+              obtain ⟨hfc, hcnt⟩ := hc1 (by rw [this]; exact hf0)
+              refine ⟨by rw [hfc, this], ?_⟩
+              simp [countCookies, h10, hcnt]
+
+
+theorem and_two_pow_ne_zero_iff (x k : Nat) : x &&& 2 ^ k ≠ 0 ↔ x.testBit k = true := by
+  constructor
+  · intro h
+    by_cases ht : x.testBit k = true
+    · exact ht
+    · exfalso
+      apply h
+      apply Nat.eq_of_testBit_eq
+      intro i
+      simp only [Nat.testBit_and, Nat.testBit_two_pow, Nat.zero_testBit]
+      by_cases hki : k = i
+      · subst hki; simp at ht; simp [ht]
+      · simp [hki]
+  · intro ht h0
+    have : (x &&& 2 ^ k).testBit k = true := by
+      simp [Nat.testBit_and, Nat.testBit_two_pow, ht]
+    rw [h0] at this
+    simp at this
+
+/-- `parseWireOPT` accepted: the bytes are the encoding of a well-formed OPT
+and the reported facts are the specification's reading of it. -/
+theorem parseWireOPT_spec (rest : Bytes) (o : OptFacts) (h : parseWireOPT rest = some o)
+    (hb : ∀ x ∈ rest, x < 256) :
+    ∃ so : SOPT, encOPT so = rest ∧ (∀ x ∈ so.options, x.ok) ∧ countCookies so.options ≤ 1 ∧ optFactsOf so = o := by
+  unfold parseWireOPT at h
+  split at h
+  · rename_i n t1 t0 s1 s0 xr ver z1 z0 l1 l0 rd
+    by_cases hn : n ≠ 0
+    · simp [hn] at h
+    · simp only [hn, if_false] at h
+      by_cases ht : u16 t1 t0 ≠ 41
+      · simp [ht] at h
+      · simp only [ht, if_false] at h
+        by_cases hl : rd.length ≠ u16 l1 l0
+        · simp [hl] at h
+        · simp only [hl, if_false] at h
+          by_cases hx : xr ≠ 0
+          · simp [hx] at h
+          · simp only [hx, if_false] at h
+            have hbrd : ∀ x ∈ rd, x < 256 := fun x hx => hb x (by simp [hx])
+            obtain ⟨os, henc, hall, hu, hv, hd, he, hns, hk, hc0, _⟩ := walkOpts_spec _ _ _ _ h hbrd
+            obtain ⟨hck, hcnt⟩ := hc0 rfl
+            have b : ∀ y, y ∈ [n, t1, t0, s1, s0, xr, ver, z1, z0, l1, l0] → y < 256 := fun y hy =>
+              hb y (by have := List.mem_append_left rd hy; simpa using this)
+            have hn0 : n = 0 := by simpa using hn
+            have hx0 : xr = 0 := by simpa using hx
+            have ht41 : u16 t1 t0 = 41 := by simpa using ht
+            have hlen : rd.length = u16 l1 l0 := by simpa using hl
+            refine ⟨{ udpSize := u16 s1 s0, version := ver, zflags := u16 z1 z0, options := os }, ?_, hall, hcnt, ?_⟩
+            · simp only [encOPT, henc, hlen]
+              rw [← ht41, be16_u16 t1 t0 (b _ (by simp)) (b _ (by simp)), be16_u16 s1 s0 (b _ (by simp)) (b _ (by simp)),
+                be16_u16 z1 z0 (b _ (by simp)) (b _ (by simp)), be16_u16 l1 l0 (b _ (by simp)) (b _ (by simp)), hn0, hx0]
+              rfl
+            · have hdo : decide (u16 z1 z0 &&& 0x8000 ≠ 0) = decide (u16 z1 z0 / 2 ^ 15 % 2 = 1) := by
+                have := and_two_pow_ne_zero_iff (u16 z1 z0) 15
+                rw [Nat.testBit_eq_decide_div_mod_eq] at this
+                simp only [decide_eq_true_eq] at this
+                exact decide_eq_decide.mpr this
+              cases o with
+              | mk ou ov od oe on ok oc =>
+                simp only at hu hv hd he hns hk hck
+                simp only [optFactsOf, OptFacts.mk.injEq]
+                refine ⟨hu.symm, hv.symm, ?_, ?_, ?_, ?_, hck.symm⟩
+                · rw [hd, hdo]
+                · rw [he]; simp
+                · rw [hns]; simp
+                · rw [hk]; simp
+  · cases h
+
+
+/-! ### OPT encoding -/
+
+theorem appendOptions_eq_encOptions (os : List SOption) : appendOptions os = encOptions os := by
+  induction os with
+  | nil => rfl
+  | cons o t ih => simp [appendOptions, encOptions, appendOption, ih]
+
+theorem encOptions_length_append (a b : List SOption) :
+    (encOptions (a ++ b)).length = (encOptions a).length + (encOptions b).length := by
+  induction a with
+  | nil => simp [encOptions]
+  | cons o t ih => simp [encOptions, ih]; omega
+
+/-! ### byte-serve steps: an induction principle over the early returns -/
+
+/-- A property that every early return, every limiter refusal and every
+commit outcome (for rung `R`) has, with at most one token spent. -/
+structure StepInv (P : Step → Prop) (R : Rung) : Prop where
+  decl : ∀ t, t ≤ 1 → P (declineWith t)
+  drop : P droppedStep
+  commit : ∀ t c, t ≤ 1 → P (commitStep R t c)
+
+theorem gate_inv {P : Step → Prop} {R : Rung} (hP : StepInv P R) (t : Nat) (ht : t ≤ 1) (ok : Bool) (k : Step)
+    (hk : P k) : P (gate t ok k) := by
+  unfold gate; cases ok <;> simp [hk, hP.decl t ht]
+
+theorem charge_inv {P : Step → Prop} {R : Rung} (hP : StepInv P R) (s : ServeFacts) (k : Nat → Step)
+    (hk : ∀ t, t ≤ 1 → P (k t)) : P (charge s k) := by
+  unfold charge
+  split
+  · exact hP.drop
+  · apply hk; split <;> omega
+
+theorem serveHit_inv {P : Step → Prop} (hP : StepInv P .exact) (s : ServeFacts) : P (serveHitFromWire s) := by
+  unfold serveHitFromWire serveChaseHit
+  repeat (first
+    | apply gate_inv hP _ (by omega)
+    | apply charge_inv hP
+    | (intro t ht)
+    | exact hP.commit _ _ (by omega)
+    | split)
+
+theorem serveCut_inv {P : Step → Prop} (hP : StepInv P .cut) (s : ServeFacts) : P (serveCutHitFromWire s) := by
+  unfold serveCutHitFromWire
+  repeat (first
+    | apply gate_inv hP _ (by omega)
+    | exact hP.commit _ _ (by omega))
+
+theorem serveFailure_inv {P : Step → Prop} (hP : StepInv P .failure) (s : ServeFacts) : P (serveFailureFromWire s) := by
+  unfold serveFailureFromWire
+  repeat (first
+    | apply gate_inv hP _ (by omega)
+    | exact hP.commit _ _ (by omega))
+
+theorem wireLadder_inv {P : Step → Prop} (h1 : StepInv P .exact) (h2 : StepInv P .cut) (h3 : StepInv P .failure)
+    (q : Req) (l : Lookups) (s : ServeFacts) : P (wireLadder q l s) := by
+  unfold wireLadder serveCompositeFromWire
+  repeat (first
+    | exact serveHit_inv h1 s
+    | exact serveCut_inv h2 s
+    | exact serveFailure_inv h3 s
+    | exact h1.decl 0 (by omega)
+    | apply gate_inv h1 _ (by omega)
+    | split)
+
 end SdnsVerif.Lemmas.WirePath
